@@ -581,6 +581,16 @@ def _exits(stmts) -> bool:
     return False
 
 
+def _const_like(v, fn) -> bool:
+    """a literal, or a member of a module-level class / enum (`FTag.MsgSeqNum`): evaluating it again gives the same object"""
+    if isinstance(v, ast.Constant):
+        return True
+    if isinstance(v, ast.Attribute) and isinstance(v.value, ast.Name) and v.value.id[:1].isupper():
+        local = {n.id for n in ast.walk(fn) if isinstance(n, ast.Name) and isinstance(n.ctx, (ast.Store, ast.Del))} | set(_params(fn))
+        return v.value.id not in local
+    return False
+
+
 def thread_constant_flags(modules, known, rep):
     """New locals that only ever hold constants and are only read by ONE following `if` statement S2 (test and body) carry
     nothing but the branch that was taken before: S2 is specialised and appended to every leaf of the `if` tree S1 in front of
@@ -621,7 +631,7 @@ def thread_constant_flags(modules, known, rep):
                         other_stores = [n for n in ast.walk(fn) if isinstance(n, ast.Name) and n.id == t and isinstance(n.ctx, (ast.Store, ast.Del))]
                         if not stores or len(other_stores) != len(stores):
                             continue
-                        if not all(len(a.targets) == 1 and isinstance(a.targets[0], ast.Name) and isinstance(a.value, ast.Constant) for a in stores):
+                        if not all(len(a.targets) == 1 and isinstance(a.targets[0], ast.Name) and _const_like(a.value, fn) for a in stores):
                             continue
                         loads = [n for n in ast.walk(fn) if isinstance(n, ast.Name) and n.id == t and isinstance(n.ctx, ast.Load)]
                         if any(not any(n is x for st_ in stmts[i:] for x in ast.walk(st_)) for n in loads):
@@ -632,7 +642,7 @@ def thread_constant_flags(modules, known, rep):
                         k = i - 2
                         pre = []
                         while k >= 0 and isinstance(stmts[k], ast.Assign) and len(stmts[k].targets) == 1 and isinstance(stmts[k].targets[0], ast.Name) \
-                                and isinstance(stmts[k].value, ast.Constant):
+                                and _const_like(stmts[k].value, fn):
                             pre.append(stmts[k])
                             k -= 1
                         if all(any(a is x for x in ast.walk(s1)) or a in pre for a in stores):
@@ -644,9 +654,9 @@ def thread_constant_flags(modules, known, rep):
                     k = i - 2
                     init_nodes = []
                     while k >= 0 and isinstance(stmts[k], ast.Assign) and len(stmts[k].targets) == 1 and isinstance(stmts[k].targets[0], ast.Name) \
-                            and isinstance(stmts[k].value, ast.Constant):
+                            and _const_like(stmts[k].value, fn):
                         if stmts[k].targets[0].id in flags and stmts[k].targets[0].id not in env0:
-                            env0[stmts[k].targets[0].id] = stmts[k].value.value
+                            env0[stmts[k].targets[0].id] = stmts[k].value
                             init_nodes.append(stmts[k])
                         k -= 1
                     failed = False
@@ -662,7 +672,7 @@ def thread_constant_flags(modules, known, rep):
                         class S(ast.NodeTransformer):
                             def visit_Name(self, node):
                                 if node.id in env and isinstance(node.ctx, ast.Load):
-                                    return ast.copy_location(ast.Constant(env[node.id]), node)
+                                    return ast.copy_location(copy.deepcopy(env[node.id]), node)
                                 return node
                         out_ = []
                         for c0 in cont:
@@ -679,7 +689,7 @@ def thread_constant_flags(modules, known, rep):
                         env = dict(env)
                         for st in block:
                             if isinstance(st, ast.Assign) and len(st.targets) == 1 and isinstance(st.targets[0], ast.Name) and st.targets[0].id in flags:
-                                env[st.targets[0].id] = st.value.value
+                                env[st.targets[0].id] = st.value
                                 continue  # the flag assignment itself disappears
                             if any(isinstance(n, ast.Name) and n.id in flags and isinstance(n.ctx, ast.Store) for n in ast.walk(st)):
                                 if isinstance(st, ast.If) and st is block[-1]:
@@ -709,6 +719,125 @@ def thread_constant_flags(modules, known, rep):
                         if a in stmts:
                             stmts.remove(a)
                     rep.other.append(f"branch flag(s) {sorted(flags)} in {sc + '.' if sc else ''}{fn.name} threaded into the branches that set them")
+                    changed = True
+                    break
+                if changed:
+                    break
+
+
+# ---------------------------------------------------------------------------------------------- N24 augmented assignment
+def expand_augassign(modules, known, rep):
+    """a new `x -= c` / `x += c` on a plain local with a numeric constant is `x = x - c` (no in-place form exists for numbers)"""
+    for rel, sc, fn in all_functions(modules):
+        kh = _known_hashes(known, rel, sc, fn)
+        if kh is None:
+            continue
+        for owner, fld, stmts in list(_blocks(fn)):
+            for i, st in enumerate(stmts):
+                if isinstance(st, ast.AugAssign) and isinstance(st.target, ast.Name) and isinstance(st.op, (ast.Add, ast.Sub)) and isinstance(st.value, ast.Constant) \
+                        and isinstance(st.value.value, (int, float)) and not isinstance(st.value.value, bool) and _is_fresh(st, fn, kh):
+                    new = ast.copy_location(ast.Assign([ast.Name(st.target.id, ast.Store())], ast.BinOp(ast.Name(st.target.id, ast.Load()), st.op, st.value), None), st)
+                    ast.fix_missing_locations(new)
+                    stmts[i] = new
+                    rep.other.append(f"`{st.target.id} {'+' if isinstance(st.op, ast.Add) else '-'}= {st.value.value}` in {fn.name} read as a plain assignment")
+
+
+# ---------------------------------------------------------------------------------------------- N23 None sentinels
+_NEVER_NONE_CALLS = {"int", "str", "float", "len", "bool", "bytes", "list", "dict", "set", "tuple", "repr", "abs", "sum", "frozenset", "sorted"}
+
+
+def _never_none(e) -> bool:
+    if isinstance(e, ast.Constant):
+        return e.value is not None
+    if isinstance(e, (ast.BinOp, ast.UnaryOp, ast.Compare, ast.JoinedStr, ast.List, ast.Tuple, ast.Dict, ast.Set, ast.ListComp, ast.DictComp,
+                      ast.SetComp, ast.Lambda)):
+        return True
+    if isinstance(e, ast.Call) and isinstance(e.func, ast.Name) and e.func.id in _NEVER_NONE_CALLS:
+        return True
+    return False
+
+
+def thread_none_sentinels(modules, known, rep):
+    """A new `if t is None: A else: B` directly behind an `if` tree whose every fall-through leaf has just assigned `t` either
+    `None` or a value that cannot be None (int(..), arithmetic, a display ...) only re-reads the branch that was taken: A / B
+    is appended to those leaves.
+
+        if k not in m: t = None                 if k not in m: t = None; return 0
+        else: t = int(m[k])            =>       else: t = int(m[k])
+        if t is None: return 0
+    """
+    for rel, sc, fn in all_functions(modules):
+        kh = _known_hashes(known, rel, sc, fn)
+        if kh is None:
+            continue
+        changed = True
+        rounds = 0
+        while changed and rounds < 8:
+            changed = False
+            rounds += 1
+            for owner, fld, stmts in list(_blocks(fn)):
+                for i in range(1, len(stmts)):
+                    s1, s2 = stmts[i - 1], stmts[i]
+                    if not (isinstance(s1, ast.If) and isinstance(s2, ast.If) and _is_fresh(s2, fn, kh)):
+                        continue
+                    c = s2.test
+                    if not (isinstance(c, ast.Compare) and len(c.ops) == 1 and isinstance(c.ops[0], (ast.Is, ast.IsNot)) and isinstance(c.left, ast.Name)
+                            and isinstance(c.comparators[0], ast.Constant) and c.comparators[0].value is None):
+                        continue
+                    t = c.left.id
+                    null_arm, other_arm = (s2.body, s2.orelse) if isinstance(c.ops[0], ast.Is) else (s2.orelse, s2.body)
+                    if not any(isinstance(n, ast.Name) and n.id == t and isinstance(n.ctx, ast.Store) for n in ast.walk(s1)):
+                        continue
+                    state0 = None
+                    k = i - 2
+                    while k >= 0 and isinstance(stmts[k], ast.Assign) and len(stmts[k].targets) == 1 and isinstance(stmts[k].targets[0], ast.Name):
+                        if stmts[k].targets[0].id == t:
+                            v = stmts[k].value
+                            state0 = "null" if isinstance(v, ast.Constant) and v.value is None else ("nonnull" if _never_none(v) else None)
+                            break
+                        k -= 1
+                    failed = False
+                    leaves = 0
+
+                    def stores_t(node):
+                        return any(isinstance(n, ast.Name) and n.id == t and isinstance(n.ctx, (ast.Store, ast.Del)) for n in ast.walk(node))
+
+                    def thread(block, state):
+                        nonlocal failed, leaves
+                        out = []
+                        for st in block:
+                            if isinstance(st, ast.Assign) and len(st.targets) == 1 and isinstance(st.targets[0], ast.Name) and st.targets[0].id == t:
+                                v = st.value
+                                state = "null" if isinstance(v, ast.Constant) and v.value is None else ("nonnull" if _never_none(v) else None)
+                                out.append(st)
+                                continue
+                            if stores_t(st):
+                                if isinstance(st, ast.If) and st is block[-1] and not stores_t(st.test):
+                                    st.body = thread(st.body, state)
+                                    st.orelse = thread(st.orelse, state)
+                                    out.append(st)
+                                    return out
+                                failed = True
+                            out.append(st)
+                        if not _exits(out):
+                            if state is None:
+                                failed = True
+                            else:
+                                leaves += 1
+                                out.extend(copy.deepcopy(null_arm if state == "null" else other_arm))
+                        return out
+                    s1c = copy.deepcopy(s1)
+                    new_s1 = thread([s1c], state0)
+                    if failed or leaves > 8:
+                        continue
+                    new_s1 = [x for x in new_s1 if not isinstance(x, ast.Pass)] or new_s1
+                    for x in new_s1:
+                        for blk in ast.walk(x):
+                            if isinstance(blk, ast.If) and not blk.body:
+                                blk.body = [ast.copy_location(ast.Pass(), blk)]
+                        ast.fix_missing_locations(x)
+                    stmts[i - 1:i + 1] = new_s1
+                    rep.other.append(f"None sentinel `{t}` in {sc + '.' if sc else ''}{fn.name} threaded into the {leaves} branch(es) that set it")
                     changed = True
                     break
                 if changed:
